@@ -12,6 +12,7 @@ package c09
 import (
 	"fmt"
 	"math/rand/v2"
+	"regexp"
 	"runtime"
 	"sort"
 	"strings"
@@ -210,16 +211,26 @@ func (h *c09Hist) reference() bool {
 				if k > 0 {
 					st := g.steps[k-1]
 					if d := c09ExecOp(s, p.chans, c09Op{st}); d != "" {
-						h.r.Inconclusive(fmt.Sprintf("model-divergence(result) case=%d: %s: %s", h.idx, st.detail(), d))
+						if !h.checkReopened(mem, "ref", func(int) string { return st.Kind }, map[string]any{"step": st.detail(), "result_divergence": d,
+							"note": "never-crashed store: the step's own result already disagreed with the model; the image is a clean reopen right after it returned"}) {
+							h.r.Inconclusive(fmt.Sprintf("model-divergence(result) case=%d: %s: %s", h.idx, st.detail(), d))
+						}
 						return false
 					}
 				}
 				want := c09Expect(ch, g.states[k], g.u)
 				got := c09Observe(s, ch, g.u)
 				if diff := c09Diff(got, want); len(diff) > 0 {
-					kind := "open"
+					kind, short := "open", "open"
 					if k > 0 {
-						kind = g.steps[k-1].detail()
+						kind, short = g.steps[k-1].detail(), g.steps[k-1].Kind
+					}
+					// A disagreement between the running store and the model is a
+					// harness matter unless the reopened store breaks a clause the
+					// property states: then it is a violation (no crash cut needed).
+					if h.checkReopened(mem, "ref", func(int) string { return short }, map[string]any{"step": kind, "live_vs_model": diff[:min(len(diff), 8)],
+						"note": "never-crashed store, clean reopen right after the mutation returned"}) {
+						return false
 					}
 					h.r.Inconclusive(fmt.Sprintf("model-divergence(state) case=%d chan=%d step=%d %s: %s", h.idx, c, k, kind, strings.Join(diff[:min(len(diff), 6)], " ; ")))
 					return false
@@ -330,6 +341,9 @@ func (h *c09Hist) live() {
 						store.close()
 						c09TheMux.unregister(store.root)
 						store, err = h.openLive(root, h.mem)
+						h.mu.Lock()
+						h.crashed = true // a clean restart is a crash point too
+						h.mu.Unlock()
 						h.r.Count("live.clean_restarts", 1)
 					} else {
 						// crash-restart: continue the history on a power-loss image
@@ -361,11 +375,22 @@ func (h *c09Hist) live() {
 				if d != "" {
 					h.diverged.Store(true)
 					h.mu.Lock()
-					crashed := h.crashed
+					crashed, mem := h.crashed, h.mem
 					h.mu.Unlock()
-					if crashed {
-						h.violation("post-crash-op-diverged:"+op[0].Kind, map[string]any{"op": op[0].desc(), "detail": d, "issuer": k, "op_index": i,
-							"note": "the same step sequence succeeded on the never-crashed reference store; this run continued on a crash image"})
+					kindOf := func(c int) string {
+						if n := int(h.begun[c].Load()); n > 0 {
+							return p.gens[c].steps[n-1].Kind
+						}
+						return "open"
+					}
+					// The reference store accepted the same step sequence, so this
+					// divergence comes from a restart or from concurrency. If the
+					// reopened store breaks a stated clause it is a violation; a
+					// divergence after any restart (clean or crash) is one too.
+					if h.checkReopened(mem, "live", kindOf, map[string]any{"diverging_op": op[0].detail(), "result_divergence": d}) {
+					} else if crashed {
+						h.violation("post-restart-op-diverged:"+op[0].Kind, map[string]any{"op": op[0].desc(), "detail": d, "issuer": k, "op_index": i,
+							"note": "the same step sequence succeeded on the never-restarted reference store; this run continued after a clean or crash restart"})
 					} else {
 						h.r.Inconclusive(fmt.Sprintf("live-divergence case=%d issuer=%d op=%d %s: %s", h.idx, k, i, op[0].desc(), d))
 					}
@@ -512,9 +537,13 @@ func (h *c09Hist) audit(cut *c09Cut, stats *c09AuditStats, contRng *rand.Rand) {
 		matched[c] = j
 		chInfo := map[string]any{"chan": c, "exact": ch.Exact, "acked_step": a, "begun_step": b, "in_flight": inflight}
 		// model-free clauses of the statement, checked on the observation itself
-		if msg := c09Invariants(obs); msg != "" {
+		if sig, why := c09ClauseCheck(ch, obs); sig != "" {
 			allOK = false
-			h.violation("invariant:"+msg, map[string]any{"cut": cutInfo, "channel": chInfo, "leo": obs["leo"], "rows": obs["rows"], "ret": obs["ret"], "ckpt": obs["ckpt"]})
+			lastKind := "open"
+			if b > 0 {
+				lastKind = g.steps[b-1].Kind
+			}
+			h.violation(sig+":"+lastKind, map[string]any{"cut": cutInfo, "channel": chInfo, "clause": why, "leo": obs["leo"], "rows": obs["rows"], "ret": obs["ret"], "ckpt": obs["ckpt"], "frontier": obs["frontier"]})
 			continue
 		}
 		if j < 0 {
@@ -684,41 +713,203 @@ func (h *c09Hist) audit(cut *c09Cut, stats *c09AuditStats, contRng *rand.Rand) {
 	}
 }
 
-// c09Invariants checks the clauses that need no model: recovered log end =
-// last stored row or retained max seq; committed watermark <= log end; rows
-// contiguous above the physical retention point.
-func c09Invariants(o map[string]string) string {
+// c09ClauseCheck evaluates, on the observation of one reopened image and
+// without any model, the clauses the property states verbatim:
+//   - the recovered log end equals the last stored row; only when no stored row
+//     lies above the logical retention boundary (fully trimmed log) may it be
+//     the retained max seq instead;
+//   - the committed watermark does not exceed the log end;
+//   - every stored row has its secondary index rows (and, on exact channels,
+//     its entry identity) and every index row / identity points at its row;
+//   - on exact channels the durable frontier / recovery loaders load.
+//
+// It returns a signature stem ("" if all hold) and a one-line explanation.
+var c09RowRe = regexp.MustCompile(`^(\d+)\|id=(\d+)\|from="([^"]*)"\|cno="([^"]*)"\|.*\|so=(true|false)\|`)
+
+func c09ClauseCheck(ch *c09Chan, o map[string]string) (string, string) {
 	var leo, l, ph, rm, e, ls, hw uint64
 	if _, err := fmt.Sscanf(o["leo"], "%d", &leo); err != nil {
-		return "leo-unreadable"
+		return "recovered-log-end-unreadable", "leo=" + o["leo"]
 	}
 	if _, err := fmt.Sscanf(o["ret"], "%d/%d/%d", &l, &ph, &rm); err != nil {
-		return "retention-unreadable"
+		return "retention-state-unreadable", "ret=" + o["ret"]
 	}
+	if strings.HasPrefix(o["rows"], "ERR") {
+		return "rows-unreadable", "rows=" + o["rows"]
+	}
+	type row struct {
+		seq, id   uint64
+		from, cno string
+		so        bool
+	}
+	rows := map[uint64]row{}
 	var last uint64
-	rows := o["rows"]
-	if strings.HasPrefix(rows, "ERR") {
-		return "rows-unreadable"
-	}
-	if rows != "" {
-		if strings.Contains(rows, ",") {
-			return "rows-not-contiguous"
+	for k, v := range o {
+		if !strings.HasPrefix(k, "row/") {
+			continue
 		}
-		parts := strings.Split(rows, "..")
-		fmt.Sscanf(parts[len(parts)-1], "%d", &last)
+		m := c09RowRe.FindStringSubmatch(v)
+		if m == nil {
+			return "rows-unreadable", k + "=" + v
+		}
+		var r row
+		fmt.Sscanf(m[1], "%d", &r.seq)
+		fmt.Sscanf(m[2], "%d", &r.id)
+		r.from, r.cno, r.so = m[3], m[4], m[5] == "true"
+		rows[r.seq] = r
+		last = max(last, r.seq)
 	}
-	if leo != max(last, rm) {
-		return "log-end-not-last-row"
+	if last > l {
+		// at least one stored row above the logical retention boundary
+		if leo != last {
+			return "recovered-log-end-not-last-stored-row", fmt.Sprintf("recovered LEO %d, last stored row %d, retention %s", leo, last, o["ret"])
+		}
+	} else if leo != max(last, rm) {
+		return "recovered-log-end-not-last-stored-row", fmt.Sprintf("recovered LEO %d, last stored row %d (none above the retention boundary), retention %s", leo, last, o["ret"])
+	}
+	for seq := last; seq > 0 && len(rows) > 0; seq-- {
+		if _, ok := rows[seq]; !ok {
+			if seq > ph {
+				return "stored-rows-not-contiguous", fmt.Sprintf("row %d missing below last stored row %d (physical retention %d)", seq, last, ph)
+			}
+			break
+		}
 	}
 	if o["ckpt"] != "absent" {
 		if _, err := fmt.Sscanf(o["ckpt"], "%d/%d/%d", &e, &ls, &hw); err != nil {
-			return "checkpoint-unreadable"
+			return "checkpoint-unreadable", "ckpt=" + o["ckpt"]
 		}
 		if hw > leo {
-			return "committed-above-log-end"
+			return "committed-above-log-end", fmt.Sprintf("committed %d > recovered LEO %d", hw, leo)
 		}
 	}
-	return ""
+	// rows -> indexes
+	senderMax := map[string]uint64{}
+	for _, r := range rows {
+		if v, ok := o[fmt.Sprintf("id/%d", r.id)]; ok && v != fmt.Sprint(r.seq) {
+			return "row-without-index", fmt.Sprintf("row %d id %d: message-id index says %s", r.seq, r.id, v)
+		}
+		if r.from != "" && r.cno != "" {
+			if v, ok := o["idem/"+r.from+"|"+r.cno]; ok && v != fmt.Sprintf("%d:%d", r.seq, r.id) {
+				return "row-without-index", fmt.Sprintf("row %d (%s,%s): idempotency index says %s", r.seq, r.from, r.cno, v)
+			}
+		}
+		if r.cno != "" {
+			if v, ok := o["cno/"+r.cno]; ok && !c09ListHas(v, r.seq) {
+				return "row-without-index", fmt.Sprintf("row %d cno %s: client-msg-no index lists [%s]", r.seq, r.cno, v)
+			}
+		}
+		if r.from != "" && !r.so {
+			senderMax[r.from] = max(senderMax[r.from], r.seq)
+		}
+		if ch.Exact {
+			if v, ok := o[fmt.Sprintf("ent/%d", r.seq)]; ok && v == "absent" {
+				return "row-without-entry-identity", fmt.Sprintf("row %d has no entry identity", r.seq)
+			}
+		}
+	}
+	// indexes -> rows
+	for k, v := range o {
+		if strings.HasPrefix(v, "ERR:") && (strings.HasPrefix(k, "id/") || strings.HasPrefix(k, "idem/") || strings.HasPrefix(k, "sender/") || strings.HasPrefix(k, "cno/")) {
+			return "index-without-row", k + " = " + v
+		}
+		switch {
+		case strings.HasPrefix(k, "id/") && v != "none":
+			var seq, id uint64
+			fmt.Sscanf(v, "%d", &seq)
+			fmt.Sscanf(k[3:], "%d", &id)
+			if r, ok := rows[seq]; !ok || r.id != id {
+				return "index-without-row", fmt.Sprintf("message-id index %d -> seq %d, no such row", id, seq)
+			}
+		case strings.HasPrefix(k, "idem/") && v != "none":
+			var seq, id uint64
+			fmt.Sscanf(v, "%d:%d", &seq, &id)
+			if r, ok := rows[seq]; !ok || r.id != id || r.from+"|"+r.cno != k[5:] {
+				return "index-without-row", fmt.Sprintf("idempotency index %s -> %s, no such row", k[5:], v)
+			}
+		case strings.HasPrefix(k, "sender/"):
+			want := "none"
+			if m := senderMax[k[7:]]; m > 0 {
+				want = fmt.Sprint(m)
+			}
+			if v != want {
+				return "index-without-row", fmt.Sprintf("sender index %s -> %s, stored rows say %s", k[7:], v, want)
+			}
+		case strings.HasPrefix(k, "cno/") && v != "":
+			for _, part := range strings.Split(v, ",") {
+				var seq uint64
+				fmt.Sscanf(part, "%d", &seq)
+				if r, ok := rows[seq]; !ok || r.cno != k[4:] {
+					return "index-without-row", fmt.Sprintf("client-msg-no index %s lists seq %d, no such row", k[4:], seq)
+				}
+			}
+		}
+	}
+	if ch.Exact {
+		if v := o["frontier"]; strings.HasPrefix(v, "ERR:") {
+			return "durable-frontier-unloadable", "LoadDurableFrontier: " + v
+		}
+		if v, ok := o["recovery"]; ok {
+			return "durable-frontier-unloadable", "LoadDurableRecovery: " + v
+		}
+		for k, v := range o {
+			if strings.HasPrefix(k, "ent/") && v != "absent" {
+				var idx uint64
+				fmt.Sscanf(k[4:], "%d", &idx)
+				if idx > leo {
+					return "entry-identity-above-log-end", fmt.Sprintf("identity at %d, recovered LEO %d", idx, leo)
+				}
+			}
+		}
+	}
+	return "", ""
+}
+
+func c09ListHas(list string, seq uint64) bool {
+	for _, part := range strings.Split(list, ",") {
+		if part == fmt.Sprint(seq) {
+			return true
+		}
+	}
+	return false
+}
+
+// checkReopened reopens a quiescent image of mem (everything issued so far was
+// acknowledged) as power-loss and as kill image and applies the model-free
+// clauses to every channel. kindOf names the last mutation of a channel. It
+// reports violations and returns true if any clause failed. A clean restart
+// right after a mutation returned is a crash point like any other.
+func (h *c09Hist) checkReopened(mem *vfs.MemFS, tag string, kindOf func(c int) string, extra map[string]any) bool {
+	bad := false
+	rng := rand.New(rand.NewPCG(5, 6))
+	for _, pct := range []int{0, 100} {
+		root := fmt.Sprintf("h%dq%s%d", h.idx, tag, pct)
+		c09TheMux.register(root, mem.CrashClone(vfs.CrashCloneCfg{UnsyncedDataPercent: pct, RNG: rng}))
+		s, err := c09OpenStore(root, h.plan.chans)
+		if err != nil {
+			c09TheMux.unregister(root)
+			h.violation("reopen-failed:open", map[string]any{"pct": pct, "when": "quiescent image after " + tag, "err": err.Error()})
+			return true
+		}
+		for c, ch := range h.plan.chans {
+			obs := c09Observe(s, ch, h.plan.gens[c].u)
+			if sig, why := c09ClauseCheck(ch, obs); sig != "" {
+				bad = true
+				w := map[string]any{"pct": pct, "when": "quiescent image, no operation in flight (" + tag + ")", "chan": c, "exact": ch.Exact, "typed": ch.Typed,
+					"clause": why, "leo": obs["leo"], "rows": obs["rows"], "ret": obs["ret"], "ckpt": obs["ckpt"], "frontier": obs["frontier"]}
+				for k, v := range extra {
+					w[k] = v
+				}
+				h.violation(sig+":"+kindOf(c), w)
+			}
+		}
+		s.close()
+		c09TheMux.unregister(root)
+		if bad {
+			break
+		}
+	}
+	return bad
 }
 
 // ---------------------------------------------------------------------------
